@@ -981,7 +981,7 @@ func (e *Enc) havocRoots(st *State, ws *writeSet, preserve bool) {
 	}
 	old := st.clone()
 	for k := range st.heap {
-		if ws.roots[rootOfKey(k)] {
+		if ws.roots[e.rootOfHeapKey(k)] {
 			delete(st.heap, k)
 		}
 	}
